@@ -22,6 +22,9 @@ CLAIMED = {
  "C14": ("def-use of the result/source association, structural one-submit/one-yield rule, dominance and try-containment on a statement CFG, sibling writer routing",
          "Static: schedules are decided structurally by showing the result<->source association never depends on order (the proxy object itself is returned and the identifier is derived from the completed value; no positional pairing), one submission per input and one yield per future, a cardinality-preserving input pipeline, failures converted to records on every path of _call, and every writer routing NotCompleted by kind under the same identifier. Content equality with a solo call and behaviour of the executors are not decided.",
          "Trusts python ast, CFG/dominators, concurrent.futures semantics (each future yielded once)."),
+ "C16": ("reaching definitions and post-dominance (with exceptional edges) on a statement CFG; wrapper-chain order; positional flow of the bounds pair",
+         "Static: what maximise returns is, on every path, the best point recorded by the tracker (get_best() runs in a finally, tuple positions agree), the tracker is the innermost wrapper and sees the start point and every optimiser evaluation, it updates only on improvement with a copy; bounds travel in (lower, upper) order from get_bounds_vectors to the in-bounds test and the bounds wrapper sits outside the tracker; the controller writes the calculator state back in a finally. Exactness of initialise_from_nested and the optimisers' internals are not decided.",
+         "Trusts python ast, CFG/reaching definitions, determinism of the objective."),
 }
 
 NOT_APPLICABLE = {
